@@ -62,12 +62,14 @@ class HeapMixin:
         return self.p.heap_get('@dtype', lambda: z3.ArraySort(I, I))
 
     def kind_tag(self, kind):
+        # containers of different element kinds are different objects (a dict of
+        # dicts never is one of its own values): the tag includes the element kinds
         if kind.is_list:
-            return 1
+            return self.class_id(f'list[{kind.elem!r}]')
         if kind.is_set:
-            return 2
+            return self.class_id(f'set[{kind.elem!r}]')
         if kind.is_dict:
-            return 3
+            return self.class_id(f'dict[{kind.key!r},{kind.val!r}]')
         return self.class_id(kind.name)
 
     # ------------------------------------------------------------ wellformed
@@ -140,6 +142,13 @@ class HeapMixin:
             if v.kind.name == 'opt':
                 raise Unsupported(f'cannot coerce {v.kind} to {kind}')
             return os_.some(self.coerce(v, kind.args[0]))
+        if v.kind.is_obj and not kind.is_ref and kind != ANY:
+            # object used as a dict key / set element whose declared kind is a value:
+            # the schema's key_view says which field carries its hash/equality
+            sch = self.reg.schemas.get(v.kind.name)
+            kv = getattr(sch, 'key_view', None) if sch else None
+            if kv is not None:
+                return self.coerce(self.read_field(v, kv), kind)
         if kind == FLOAT and v.kind == INT:
             return z3.ToReal(v.t)
         if kind == INT and v.kind == BOOL:
